@@ -57,6 +57,7 @@ func init() {
 		},
 		Required: append(append([]string{}, pairRequired...),
 			"rep-mode-table-set-via-equivalent-key", "rep-mode-table-rem-via-equivalent-key", "rep-mode-table-lookup-via-equivalent-key",
+			"wrap-case", "wrap-equal-containers-of-different-representations",
 			"reflexive-checked", "distinct-objects-related", "cross-representation-numbers-related", "chain-antecedent-true",
 			"sxhash-on-equal-distinct-objects", "transitive-antecedent-true", "transitive-mixed-representations",
 			"typep-of-own-type-of", "proper-supertype-of-type-of", "subtypep-reflexive-checked", "subtypep-transitive-proper-chain",
@@ -90,12 +91,13 @@ func bound(tier string) string {
 		"tables: BFS over histories of (setf gethash) x {a, nil} / remhash / clrhash on tables of 4 :test values, every step followed by gethash of every key + hash-table-count + maphash: "+
 		"full alphabet of %d keys to %d operations, sub-alphabet of %d keys and representation alphabet of %d keys (%s) to the fixpoint of the reachable contents (every history of any length, in particular <= 12, ends in an explored state); "+
 		"table pair family: %d keys in %d groups [%s], 4 :test values: every single store, every ORDERED pair (k1,k2) of the %d x %d with store k1 then (setf gethash) k2 / remhash k2, each on an empty table and on a table holding %d bystander entries; "+
-		"3-operation histories (a further store / removal under k1 or k2) %s; %d cases, every step followed by gethash of every key involved + hash-table-count + maphash",
+		"3-operation histories (a further store / removal under k1 or k2) %s; %d cases, every step followed by gethash of every key involved + hash-table-count + maphash; "+
+		"wrap family: every unordered pair of keys of one group of the pair alphabet, each key placed in each of %d container shapes (one-element list, after / before a symbol, between a symbol and a string, after a fixnum / a double, before a ratio / a nested list, twice, dotted, vectors, nested list / vector, three levels deep), the pair laws on the two containers (%d cases)",
 		n*(n+1)/2, n*(n-1)*(n-1), n, len(universe), nt, nt*nt, nt*nt*nt, len(universe), len(coerceMenu),
 		len(fullKeys(tier)), fullDepth(tier), len(subKeys(tier)), len(repKeys(tier)), keySrcs(repKeys(tier)),
 		len(pairKeys), len(pairGroups), pairAlphabetText(), len(pairKeys), len(pairKeys), len(pairBystanders),
 		map[bool]string{false: "for the pairs inside a group and across neighbouring groups", true: "for every ordered pair with and without bystanders, plus two stores and a third operation for every ordered triple of distinct keys inside a group"}[tier == engine.Thorough],
-		pairCaseCount(tier))
+		pairCaseCount(tier), len(wrapShapes), wrapCaseCount())
 }
 
 func keySrcs(keys []string) string {
@@ -114,6 +116,8 @@ func enumerate(tier string, emit func(string)) {
 			emit("p|" + x.name + "|" + y.name)
 		}
 	}
+	// containers holding one number in two representations (round 8)
+	enumerateWrap(tier, emit)
 	// tables: the pair family
 	enumeratePairs(tier, emit)
 	// types
@@ -166,6 +170,8 @@ func exec(spec string) (res engine.Result) {
 		return execType(parts)
 	case "tp":
 		return execPairCase(parts)
+	case "w":
+		return execWrap(parts)
 	}
 	res.Fail("harness:bad-spec", spec)
 	return
